@@ -31,7 +31,7 @@ from ..util import canon_func, store_targets, body_walk, src, walk_no_nested
 P = "fickling.fickle.Pickled"
 
 
-def check_concat(repo: Repo, rep: Report):
+def check_concat(repo: Repo, rep: Report, rule: str = "C06.concat"):
     pk = repo.cls(P)
     for name in ("dumps", "dump", "dumps_partial"):
         f = pk.method(name)
@@ -41,7 +41,7 @@ def check_concat(repo: Repo, rep: Report):
         comps = [n for n in body_walk(f.node) if isinstance(n, (ast.GeneratorExp, ast.ListComp))]
         problems = []
         if len(loops) + len(comps) != 1:
-            rep.bad("C06.concat", f.qualname, "not-plain-concatenation", f"{f.qualname} contains {len(loops) + len(comps)} loops/comprehensions: the serialised form is computed, not the plain concatenation of the opcodes' retained bytes (e.g. lengths or frames are rewritten on the way out)", f.file, f.line)
+            rep.bad(rule, f.qualname, "not-plain-concatenation", f"{f.qualname} contains {len(loops) + len(comps)} loops/comprehensions: the serialised form is computed, not the plain concatenation of the opcodes' retained bytes (e.g. lengths or frames are rewritten on the way out)", f.file, f.line)
             continue
         if loops:
             lp = loops[0]
@@ -49,7 +49,8 @@ def check_concat(repo: Repo, rep: Report):
             body = lp.body
             sinks = [n for st in body for n in walk_no_nested(st) if isinstance(n, ast.Call) and isinstance(n.func, ast.Attribute) and n.func.attr in ("extend", "write", "append", "__iadd__")]
             augs = [st for st in body if isinstance(st, ast.AugAssign)]
-            if any(isinstance(x, (ast.If, ast.Continue, ast.Break, ast.Try)) for st in body for x in walk_no_nested(st)):
+            body_rest = list(body)
+            if any(isinstance(x, (ast.If, ast.Continue, ast.Break, ast.Try)) for st in body_rest for x in walk_no_nested(st)):
                 problems.append("the loop body branches / skips: not every opcode is emitted")
             datas = [c.args[0] for c in sinks if c.args] + [a.value for a in augs]
             if len(datas) != 1:
@@ -72,9 +73,9 @@ def check_concat(repo: Repo, rep: Report):
         if not want_full and not (isinstance(it, ast.Subscript) and dotted(it.value) in ("self._opcodes", "self") and isinstance(it.slice, ast.Slice)):
             problems.append(f"iterates `{it_txt}`, not a slice of the opcode list")
         if problems:
-            rep.bad("C06.concat", f.qualname, "not-plain-concatenation", "; ".join(problems), f.file, f.line)
+            rep.bad(rule, f.qualname, "not-plain-concatenation", "; ".join(problems), f.file, f.line)
         else:
-            rep.ok("C06.concat", f.qualname, f"concatenates <opcode>.data over `{it_txt}`", f"{f.file}:{f.line}")
+            rep.ok(rule, f.qualname, f"concatenates <opcode>.data over `{it_txt}`", f"{f.file}:{f.line}")
     op = repo.cls("fickling.fickle.Opcode")
     dg = op.method("data", "property")
     if dg is None:
@@ -90,20 +91,20 @@ def check_concat(repo: Repo, rep: Report):
     enc_ret = [r for r in rets if isinstance(r.ast.value, ast.Call) and dotted(r.ast.value.func) == "self.encode"]
     enc_guarded = all(any(src(g.nodes[d].ast) == "self._data is None" and g.nodes[d].value is True or src(g.nodes[d].ast) == "self._data is not None" and g.nodes[d].value is False for d in g.dominators()[r.id] if g.nodes[d].kind == "branch") for r in enc_ret)
     if ok and enc_guarded and len(rets) == len(enc_ret) + sum(1 for r in rets if dotted(r.ast.value) == "self._data"):
-        rep.ok("C06.concat", dg.qualname, "returns the retained bytes; encodes only when none were retained", f"{dg.file}:{dg.line}")
+        rep.ok(rule, dg.qualname, "returns the retained bytes; encodes only when none were retained", f"{dg.file}:{dg.line}")
     else:
-        rep.bad("C06.concat", dg.qualname, "data-not-retained-first", "Opcode.data does not return the retained source bytes whenever they exist", dg.file, dg.line)
+        rep.bad(rule, dg.qualname, "data-not-retained-first", "Opcode.data does not return the retained source bytes whenever they exist", dg.file, dg.line)
     init = op.method("__init__")
     st = [n for n in body_walk(init.node) if isinstance(n, (ast.Assign, ast.AnnAssign)) and dotted(n.targets[0] if isinstance(n, ast.Assign) else n.target) == "self._data"]
     if len(st) == 1 and dotted(st[0].value) == "data":
-        rep.ok("C06.concat", init.qualname, "self._data = data (kept unchanged)", f"{init.file}:{st[0].lineno}")
+        rep.ok(rule, init.qualname, "self._data = data (kept unchanged)", f"{init.file}:{st[0].lineno}")
     else:
-        rep.bad("C06.concat", init.qualname, "data-transformed", f"Opcode.__init__ stores `{[src(s.value) for s in st]}` as the retained bytes", init.file, init.line)
+        rep.bad(rule, init.qualname, "data-transformed", f"Opcode.__init__ stores `{[src(s.value) for s in st]}` as the retained bytes", init.file, init.line)
     ds = op.method("data", "setter")
     if ds is not None:
         st = [n for n in body_walk(ds.node) if isinstance(n, ast.Assign) and dotted(n.targets[0]) == "self._data"]
         if not (len(st) == 1 and isinstance(st[0].value, ast.Name) and st[0].value.id in ds.params()):
-            rep.bad("C06.concat", ds.qualname, "setter-transforms", "Opcode.data setter does not store its value unchanged", ds.file, ds.line)
+            rep.bad(rule, ds.qualname, "setter-transforms", "Opcode.data setter does not store its value unchanged", ds.file, ds.line)
     # no opcode class fills its retained bytes by itself: the parser hands over the source bytes (or None, to be completed
     # from the stream once the next opcode's position is known - the completion is guarded by `not has_data()`)
     n_sub = 0
@@ -115,17 +116,17 @@ def check_concat(repo: Repo, rep: Report):
                     if isinstance(n, (ast.Assign, ast.AugAssign, ast.AnnAssign)):
                         for t in store_targets(n):
                             if dotted(t) in ("self._data", "self.data"):
-                                rep.bad("C06.concat", f.qualname, f"data-self-filled:{c.name}", f"`{src(n)}`: {c.name} sets its own retained bytes; an opcode the parser built without bytes then counts as complete, its source bytes are never filled in from the stream, and dumps() emits a re-encoding instead of the input bytes (or construction fails on input the re-encoder cannot represent)", f.file, n.lineno)
+                                rep.bad(rule, f.qualname, f"data-self-filled:{c.name}", f"`{src(n)}`: {c.name} sets its own retained bytes; an opcode the parser built without bytes then counts as complete, its source bytes are never filled in from the stream, and dumps() emits a re-encoding instead of the input bytes (or construction fails on input the re-encoder cannot represent)", f.file, n.lineno)
                     if isinstance(n, ast.Call) and dotted(n.func) == "setattr" and len(n.args) == 3 and dotted(n.args[0]) == "self" and isinstance(n.args[1], ast.Constant) and n.args[1].value in ("_data", "data"):
-                        rep.bad("C06.concat", f.qualname, f"data-self-filled:{c.name}", f"`{src(n)}`: {c.name} sets its own retained bytes", f.file, n.lineno)
-    rep.ok("C06.concat", "fickling.fickle.Opcode.*", f"{n_sub} opcode classes: none stores to its own retained bytes", "")
+                        rep.bad(rule, f.qualname, f"data-self-filled:{c.name}", f"`{src(n)}`: {c.name} sets its own retained bytes", f.file, n.lineno)
+    rep.ok(rule, "fickling.fickle.Opcode.*", f"{n_sub} opcode classes: none stores to its own retained bytes", "")
     # the dispatching constructor forwards data
     new = op.method("__new__")
     fw = [n for n in body_walk(new.node) if isinstance(n, ast.Call) and isinstance(n.func, ast.Subscript) and dotted(n.func.value) == "OPCODES_BY_NAME"]
     if fw and any(isinstance(a, ast.Starred) for a in fw[0].args) and any(k.arg is None for k in fw[0].keywords):
-        rep.ok("C06.concat", new.qualname, "Opcode(info=...) forwards *args/**kwargs (incl. data, position) to the concrete class", f"{new.file}:{new.line}")
+        rep.ok(rule, new.qualname, "Opcode(info=...) forwards *args/**kwargs (incl. data, position) to the concrete class", f"{new.file}:{new.line}")
     else:
-        rep.bad("C06.concat", new.qualname, "ctor-drops-args", "Opcode.__new__ does not forward all arguments to the concrete opcode class", new.file, new.line)
+        rep.bad(rule, new.qualname, "ctor-drops-args", "Opcode.__new__ does not forward all arguments to the concrete opcode class", new.file, new.line)
 
 
 def check_ctor_total(repo: Repo, rep: Report):
@@ -403,11 +404,12 @@ def check_make_stream(repo: Repo, rep: Report):
     for c in unb:
         node = g.node_of(c)
         conds = [src(g.nodes[d].ast) for d in g.dominators()[node.id] if g.nodes[d].kind == "branch" and g.nodes[d].value is True]
+        only_nonseekable = any("seekable" in x for x in conds)
         rep.bad(
             "C06.bounded-read",
             f.qualname,
-            "drains-non-seekable-stream",
-            f"`{src(c)}` under `{'; '.join(conds)}`: a non-seekable caller stream is read to its end to build a BytesIO, so parsing the first pickle consumes everything that follows it in the caller's stream",
+            "drains-non-seekable-stream" if only_nonseekable else "drains-seekable-stream",
+            f"`{src(c)}` under `{'; '.join(conds)}`: a non-seekable caller stream is read to its end to build a BytesIO, so parsing the first pickle consumes everything that follows it in the caller's stream" if only_nonseekable else f"`{src(c)}` under `{'; '.join(conds)}`: the caller's stream is read to its end even when it is seekable (an ordinary open file): after the first pickle is parsed the caller's handle is at EOF, so what follows the pickle - the next stacked pickle, the trailing archive - is consumed",
             f.file,
             c.lineno,
         )
